@@ -34,7 +34,7 @@ BUDGET = {"quick": {"runs": 300, "chunk": 6}, "thorough": {"runs": 30000, "chunk
 COMPONENTS = {"real": ["Solution.to_hdf5/from_hdf5", "Device/Polygon/Layer/Mesh/EdgeMesh (de)serialisation", "Parameter/CompositeParameter pickling", "SolverOptions round trip", "seeding a run from a reloaded solution"], "stub": ["wall clock (simulated, so time_created is reproducible)"]}
 ASSUMPTIONS = ["Only state produced by simulated runs is round-tripped; the quantifier over all devices/option combinations/expression trees is sampled, not covered."]
 
-OPS = ["reload", "reload-step", "copy", "orphan-copy", "device-h5", "device-h5-nomesh", "mesh-h5", "mesh-h5-compressed", "pickle-device", "pickle-params", "seed-run", "equality"]
+OPS = ["reload", "reload-step", "copy", "orphan-copy", "moved-save", "moved-save-inplace", "device-h5", "device-h5-nomesh", "mesh-h5", "mesh-h5-compressed", "pickle-device", "pickle-params", "seed-run", "equality"]
 MESH_ARRAYS = ("sites", "elements", "boundary_indices", "areas", "dual_sites")
 EDGE_ARRAYS = ("edges", "centers", "boundary_edge_indices", "directions", "edge_lengths", "dual_edge_lengths")
 
@@ -161,7 +161,7 @@ def cmp_options(o1, o2):
         if va is None or vb is None:
             if va is not vb:
                 out.append(f"options.{k}: {va!r} != {vb!r}")
-        elif va != vb or (type(va) is bool) != (type(vb) in (bool, np.bool_)):
+        elif va != vb or (type(va) in (bool, np.bool_)) != (type(vb) in (bool, np.bool_)):
             out.append(f"options.{k}: {va!r} != {vb!r}")
     return out
 
@@ -368,6 +368,31 @@ def run(scn):
                         report(op, diffs)
                     finally:
                         os.rename(hidden, path)
+                elif op in ("moved-save", "moved-save-inplace"):
+                    # the loaded solution's device is moved in place (Device.translate / the translation()
+                    # context manager of a scanning workflow) and the solution is saved again: what is
+                    # read back is the moved device, mesh included
+                    import shutil
+
+                    p2 = os.path.join(work, f"moved{j}.h5")
+                    if op == "moved-save-inplace":
+                        shutil.copyfile(path, p2)
+                        re = tdgl.Solution.from_hdf5(p2)
+                    else:
+                        re = tdgl.Solution.from_hdf5(path)
+                    xi_ = float(scn["device"]["layer"]["xi"])
+                    re.device.translate(2.5 * xi_, -1.25 * xi_, inplace=True)
+                    if op == "moved-save-inplace":
+                        re.to_hdf5()
+                    else:
+                        re.to_hdf5(p2)
+                    re2 = tdgl.Solution.from_hdf5(p2)
+                    diffs = cmp_device(re.device, re2.device) + cmp_options(re.options, re2.options)
+                    for name in ("psi", "mu", "supercurrent", "normal_current", "induced_vector_potential"):
+                        r = cmp_arrays(getattr(re.tdgl_data, name), getattr(re2.tdgl_data, name), f"moved {name}")
+                        if r:
+                            diffs.append(r)
+                    report(op, diffs)
                 elif op in ("device-h5", "device-h5-nomesh"):
                     p2 = os.path.join(work, f"dev{j}.h5")
                     sol.device.to_hdf5(p2, save_mesh=(op == "device-h5"))
